@@ -2,3 +2,4 @@ import ZixModel.Properties.C20
 import ZixModel.Properties.C09
 import ZixModel.Properties.C05
 import ZixModel.Properties.C16
+import ZixModel.Properties.C17
